@@ -663,8 +663,55 @@ func deviationCases(thorough bool) []caseRec {
 	return out
 }
 
+// sameNameFeatureCases: modules a and b both define a feature x. b's grouping has a member with
+// "if-feature x" (b:x); a uses it with "if-feature x" on the uses, on an augment around the uses, on
+// the container around it, or not at all - under every set of enabled features.  The gated member is
+// present iff b:x and every a:x written around it are enabled; equal text is not an equal feature.
+func sameNameFeatureCases() []caseRec {
+	var out []caseRec
+	b := "module b { namespace \"urn:b\"; prefix b; feature x; grouping g { leaf gated { type string; if-feature x; } leaf plain { type string; } container gc { if-feature x; leaf in { type string; } } } }"
+	sites := map[string]string{
+		"on-uses":      "container top { uses b:g { if-feature x; } }",
+		"on-augment":   "container top { leaf base { type string; } } augment /a:top { if-feature x; uses b:g; }",
+		"on-container": "container top { if-feature x; uses b:g; }",
+		"none":         "container top { uses b:g; }",
+		"on-uses-of-local-grouping": "grouping lg { uses b:g; } container top { uses lg { if-feature x; } }",
+	}
+	for site, body := range sites {
+		for mask := 0; mask < 4; mask++ {
+			var feats []string
+			ax, bx := mask&1 != 0, mask&2 != 0
+			if ax {
+				feats = append(feats, "a:x")
+			}
+			if bx {
+				feats = append(feats, "b:x")
+			}
+			r := caseRec{Kind: "same-name-feature", Name: fmt.Sprintf("%s:a:x=%v:b:x=%v", site, ax, bx), Expect: "ok", Feats: feats,
+				Mods: map[string]string{"a": "module a { namespace \"urn:a\"; prefix a; import b { prefix b; } feature x; " + body + " }", "b": b}}
+			outer := ax || site == "none"
+			add := func(path string, present bool) {
+				if present {
+					r.Present = append(r.Present, path)
+				} else {
+					r.Absent = append(r.Absent, path)
+				}
+			}
+			if site == "on-container" {
+				add("/top", outer)
+			}
+			add("/top/plain", outer)
+			add("/top/gated", outer && bx)
+			add("/top/gc/in", outer && bx)
+			out = append(out, r)
+		}
+	}
+	return out
+}
+
 func run(c *engine.Ctx) {
 	var all []caseRec
+	all = append(all, sameNameFeatureCases()...)
 	all = append(all, configCases()...)
 	all = append(all, statusCases()...)
 	all = append(all, featureCases()...)
